@@ -188,18 +188,43 @@ def build_cases(chk):
     return cases
 
 
+def linecol_texts(chk):
+    """pos_to_linecol of the model against Arpeggio's own method (and the independent walk) on EVERY text
+    over {a, LF, CR} up to a length bound, at every offset 0..len.  Validation of the transcription of
+    the dependency, not the proof (C28_linecol_exact is)."""
+    import itertools
+    bound = 6 if chk.thorough else 4
+    texts = ["".join(t) for n in range(bound + 1) for t in itertools.product("a\n\r", repeat=n)]
+    return texts + ["é\n\U0001F600b\r\n\nx", "\n" * 9, "ab" * 20 + "\n" + "c" * 7]
+
+
+def check_linecol(chk, texts, impl, vals, disagreements, failures):
+    for t, iv, mv in zip(texts, impl, vals):
+        ic = ",".join("%d:%d" % (l, c) for l, c in iv)
+        chk.count(("linecol", t), nontrivial="\n" in t)
+        if mv is not None and mv != ic:
+            disagreements.append({"case": {"pos_to_linecol on text": t}, "impl": ic, "model": mv})
+        want = ",".join("%d:%d" % L.linecol(t, p) for p in range(len(t) + 1))
+        if ic != want:
+            failures.append({"case": {"pos_to_linecol on text": t}, "impl": ic, "what": "Arpeggio's pos_to_linecol differs from the line/column walk: want " + want, "tags": []})
+    chk.stat("pos_to_linecol enumeration: texts", len(texts))
+
+
 def run(chk):
     chk.prove([loc_tr.translate])
     cases = build_cases(chk)
     payloads = [dict(L.world_payload(c["world"])) for c in cases]
     chunks = [list(range(len(cases)))[i::core.NPROC] for i in range(core.NPROC)]
     chunks = [c for c in chunks if c]
-    outs = core.run_impl_parallel("c28", [{"cases": [payloads[i] for i in ch]} for ch in chunks])
+    texts = linecol_texts(chk)
+    outs = core.run_impl_parallel("c28", [{"cases": [payloads[i] for i in ch]} for ch in chunks] + [{"linecol_texts": texts}])
     res = {}
     for ch, o in zip(chunks, outs):
         for i, x in zip(ch, o):
             res[i] = x
-    vals, errs = core.coq_eval("C28", L.IMPORTS, [coq_case(c) for c in cases])
+    vals, errs = core.coq_eval("C28", L.IMPORTS, [coq_case(c) for c in cases] + ["show_lcs %s %d" % (core.coq_str(t), len(t) + 1) for t in texts])
+    lc_vals = vals[len(cases):]
+    vals = vals[:len(cases)]
     disagreements, failures = [], []
     if errs:
         disagreements.append({"case": "coq evaluation", "model": errs[:2]})
@@ -221,11 +246,13 @@ def run(chk):
             failures.append({"case": describe(c), "impl": o, "model": mv, "what": bad, "tags": tags_of(c, o)})
         if i % 45 == 3:
             chk.sample({"case": describe(c), "impl": {k: o.get(k) for k in ("cls", "message", "line", "col", "filename")}, "model": mv})
+    check_linecol(chk, texts, outs[-1], lc_vals, disagreements, failures)
     chk.cov["rule"] = ("generated 1-4 file models (imports as a DAG incl. diamonds; loaded from file, single-file ones also from a string) with ONE injected "
                        "error: stray token / dropped ';' (syntax), reference to an undefined name (unknown object), 1-3 forever-postponed references in "
                        "random files (unresolvable), a duplicated name referenced in the same file or from the importing file (not unique); random layout "
                        "with blank lines, tabs, CRLF/CR, comments, non-ASCII/astral characters; non-trivial = the offending text is not on line 1; "
-                       "distinct by (kind, file texts, sites)")
+                       "distinct by (kind, file texts, sites); plus pos_to_linecol against Arpeggio's own method on every text over {a, LF, CR} up to length "
+                       "4 (thorough: 6) at every offset")
     chk.assumptions += ["translator loc_tr.py (which parser / file name each error site uses; shapes of the sites checked literally)",
                         "Python's bisect.bisect_left = first index with element >= x (linear definition; proved equal to the binary search on the line-end table)",
                         "NoMatch.position, ObjCrossRef.position are the offsets of the offending text (observed by the correspondence, not modelled: C01/C06)",
